@@ -20,7 +20,7 @@ CONSTANTS
   MaxDepth,
   MaxBlank,    \* blank lines per document (wf)
   Names,       \* set of names (token sequences)             (wf)
-  SigmaSet,    \* set of [unit, heading, crlf, bullets]      (wf)
+  SigmaSet,    \* set of [unit, heading, crlf, bullets, blanks] (wf)
   BlankPool,   \* set of blank lines                         (wf)
   LinePool     \* set of raw lines                           (pool)
 
@@ -48,7 +48,7 @@ Init ==
   /\ doc = <<>>
   /\ gs = GS0(Gen)
   /\ an = A0
-  /\ sigma \in (IF Mode = "wf" THEN SigmaSet ELSE {[unit |-> <<>>, heading |-> FALSE, crlf |-> FALSE, bullets |-> {}]})
+  /\ sigma \in (IF Mode = "wf" THEN SigmaSet ELSE {[unit |-> <<>>, heading |-> FALSE, crlf |-> FALSE, bullets |-> {}, blanks |-> FALSE]})
   /\ gen_items = <<>>
   /\ nblank = 0
   /\ obs = ObsOf(A0)
@@ -68,7 +68,7 @@ NextWf ==
           /\ gen_items' = Append(gen_items, [d |-> d, n |-> n])
           /\ Feed(SpellItem(d, n, sigma, b))
           /\ UNCHANGED <<sigma, nblank>>
-  \/ /\ nblank < MaxBlank
+  \/ /\ nblank < (IF sigma.blanks THEN MaxBlank ELSE 0)
      /\ \E l \in BlankPool :
           /\ Feed(l)
           /\ nblank' = nblank + 1
